@@ -390,6 +390,15 @@ example : mimeWrap (List.replicate 77 65) = List.replicate 76 65 ++ [13, 10, 65]
 theorem base64_urlsafe_not_supported : inv 45 = 0 ∧ inv 95 = 0 ∧ inv 43 = 62 ∧ inv 47 = 63 ∧
     decodeBase64 [45, 95, 45, 95] = [0, 0, 0] ∧ decodeBase64 [43, 47, 43, 47] = [0xfb, 0xff, 0xbf] := by decide +kernel
 
+/-- **base64_unpadded_loses_tail.**  The RFC 4648 text with its `=` signs omitted (§3.2) is accepted, but only the complete
+    3-byte groups come back: the last `length % 3` bytes are lost, for every byte array (nothing is lost iff `length % 3 = 0`) -/
+theorem base64_unpadded_loses_tail (d : List UInt8) :
+    decodeBase64 ((encodeBase64 d).filter (· != 61)) = d.take (d.length / 3 * 3) := by
+  rw [encode_eq_rfcWith]
+  exact AslProofs.CodecExt.decode_unp d
+
+example : decodeBase64 ((encodeBase64 [102, 111, 111, 98]).filter (· != 61)) = [102, 111, 111] := by decide +kernel
+
 /-- padding is counted, not checked: without its `==`, `"Zm9vYg"` (`"foob"`) gives `"foo"` (an incomplete last group
     writes nothing); with one `=` of the two, `"Zm9vYg="` gives `"fo"` (nothing written for the group, one more byte taken
     off); excess padding `"Zm9v===="` gives `"fo"` (the `====` group is decoded as data, then four bytes are taken off);
